@@ -15,7 +15,7 @@ DATA_POOL = [
 
 def compile_templates(files_list):
     """files_list: list of [[path, src], ...]; returns decoded `group` answers (dict) or {"panic": msg}"""
-    outs = core.run_harness([core.req("group", json.dumps({"files": fl})) for fl in files_list])
+    outs = core.run_harness([core.req("group", json.dumps(fl if isinstance(fl, dict) else {"files": fl})) for fl in files_list])
     res = []
     for o in outs:
         if o.startswith("PANIC"):
